@@ -153,3 +153,24 @@ def check_C01(ctx):
              'distinct = distinct (function, operands, result); non-trivial = at least two limbs',
         explanation='dispatch/parameter models checked with the constants of the tree under test + trace validation of real products',
         extra_cov=dict(boundary_shapes_replayed=len(shapes), fft_parameter_pairs=len(bylabel), thresholds={k: th[k] for k in th if k.startswith('MUL_') or k.startswith('SQR_')}))
+
+
+# ------------------------------------------------------------------------------------------------ C02
+def check_C02(ctx):
+    q = ctx.tier == 'quick'
+    for B in ([8, 16] if q else [8, 16, 32]):
+        r = ctx.tlc_model('UdivPreinv', cfg_text=cfg(consts={'B': B, 'EMIT': 'FALSE'}), name=f'UdivPreinv-B{B}', timeout=3000)
+        ctx.model_must_hold(r, what='(3/2 inverse and quotient step, all admissible inputs)')
+    sbs = [(4, 3, 5)] if q else [(4, 3, 5), (4, 3, 6), (4, 4, 6), (8, 3, 4)]
+    for B, dn, nn in sbs:
+        r = ctx.tlc_model('SbDivQr', cfg_text=cfg(consts={'B': B, 'DN': dn, 'NN': nn, 'Variant': '"ok"', 'EMITSB': 'FALSE'}), name=f'SbDivQr-B{B}-{dn}-{nn}', timeout=3000)
+        ctx.model_must_hold(r, what='(schoolbook division loop)')
+    trace_drivers(ctx, [('c02_tdiv', 16, 1200), ('c02_div1', 8, 600), ('c02_mpz', 16, 900)], pure_drivers=['c02_tdiv', 'c02_div1', 'c02_mpz'])
+    return ctx.finish('model_checking',
+        rule='R2: UdivPreinv = every normalised two-limb divisor and every admissible three-limb numerator at word widths 3..5 bits; SbDivQr = every normalised '
+             'divisor and dividend of the stated limb counts at limb base 4/8 through the transcribed loop (special case q=B-1, add-back). R3/R1: tdiv_qr/tdiv_q/sb_div_qr/divrem '
+             'at divisor sizes on both sides of every division crossover x quotient lengths (0,1,2,dn/2,dn-1,dn,dn+1,2dn+1,5dn) x contents (inverse construction with all-ones '
+             'quotient and maximal remainder, dividend prefix equal to divisor, d1=B/2, corners, unnormalised divisors); single-limb divisor classes; every mpz division, '
+             'divisibility and congruence function x four sign combinations x exact/maximal-remainder/random, d=0 where defined; each call validated by TLC. '
+             'distinct = distinct (function, operands, results); non-trivial = at least two limbs',
+        explanation='exhaustive small-word models of the quotient-digit machinery + trace validation of the real division code')
